@@ -231,5 +231,76 @@ def runOps (t : Tab) : List Op → Except Err Tab
 /-- stabilizer half as a list of rows -/
 def stabRows (t : Tab) : List PRow := (List.range t.n).map fun i => t.row (i + t.n)
 
+/-! ### X / Y measurements (clifford.py `measure_x`, `measure_y`, `x_measurement_gate`; state.py `Stabilizer.apply_x_measurement`)
+
+  Model of the code after the repairs D52 (measure_x / measure_y rotate back after the Z measurement) and D53
+  (`x_measurement_gate` exists).  All three are compositions of operations above: change of basis on the caller's tableau,
+  `z_measurement_gate`, change of basis back. -/
+
+/-- `x_measurement_gate(tableau, q, determinism)` = `hadamard_gate; z_measurement_gate; hadamard_gate`; returns
+    `(tableau, outcome, x_p)`.  `measure_x` does the same on the caller's tableau and returns only the outcome. -/
+def measX (t : Tab) (q : Nat) (o : Bool) : Tab × Bool × Nat :=
+  let r := (t.hGate q).zMeasure q o
+  (r.1.hGate q, r.2.1, r.2.2)
+
+/-- `measure_y(tableau, q, determinism)` = `phase_dagger_gate; hadamard_gate; z_measurement_gate; hadamard_gate; phase_gate`
+    on the caller's tableau; the Python returns only the outcome -/
+def measY (t : Tab) (q : Nat) (o : Bool) : Tab × Bool × Nat :=
+  let r := ((t.sdgGate q).hGate q).zMeasure q o
+  ((r.1.hGate q).sGate q, r.2.1, r.2.2)
+
+/-- the tableau API extended by the X / Y measurements -/
+inductive OpX where
+  | base (op : Op)
+  | measX (q : Nat) (o : Bool)
+  | measY (q : Nat) (o : Bool)
+  | xMeasGate (q : Nat) (o : Bool)
+
+/-- the base operations an extended operation consists of -/
+def OpX.desugar : OpX → List Op
+  | .base op => [op]
+  | .measX q o => [.h q, .meas q o, .h q]
+  | .xMeasGate q o => [.h q, .meas q o, .h q]
+  | .measY q o => [.sdg q, .h q, .meas q o, .h q, .s q]
+
+/-- one extended API call (the first thing every one of the new functions does is a gate on `q`, whose `assert` fires for
+    `q ≥ n` before anything is changed) -/
+def applyOpX (t : Tab) : OpX → Except Err (Tab × Option (Bool × Bool))
+  | .base op => t.applyOp op
+  | .measX q o =>
+    if q < t.n then
+      let r := t.measX q o
+      .ok (r.1, some (r.2.1, r.2.2 ≠ 0))
+    else .error .assertion
+  | .xMeasGate q o =>
+    if q < t.n then
+      let r := t.measX q o
+      .ok (r.1, some (r.2.1, r.2.2 ≠ 0))
+    else .error .assertion
+  | .measY q o =>
+    if q < t.n then
+      let r := t.measY q o
+      .ok (r.1, some (r.2.1, r.2.2 ≠ 0))
+    else .error .assertion
+
+/-- `control_y_gate(tableau, c, t)` of transformation.py = `phase_gate; z_gate; cnot_gate; phase_gate` (on the target) -/
+def cyGate (t : Tab) (c tg : Nat) : Tab := (((t.sGate tg).zGate tg).cnotGate c tg).sGate tg
+
+/-- `tensor(list_of_tables)`: the list is folded into its first element, one `tensor2` step per further factor -/
+def tensorList (t : Tab) (ts : List Tab) : Tab := ts.foldl tensor2 t
+
+/-- `Stabilizer.trace_out_qubits(positions)` / `MixedStabilizer.trace_out_qubits` (state.py, after the repair D54):
+    `partial_trace` with `keep` = the qubits NOT listed, in increasing order -/
+def traceOutQubits (t : Tab) (positions : List Nat) (os : List Bool) : Except Err Tab :=
+  t.partialTrace ((List.range t.n).filter fun q => !positions.contains q) os
+
+/-- a history of extended API calls -/
+def runOpsX (t : Tab) : List OpX → Except Err Tab
+  | [] => .ok t
+  | op :: rest =>
+    match t.applyOpX op with
+    | .ok (t', _) => runOpsX t' rest
+    | .error e => .error e
+
 end Tab
 end Graphiq
